@@ -1,6 +1,7 @@
 package vrt
 
 import (
+	"os"
 	"errors"
 	"io"
 	"net"
@@ -130,6 +131,7 @@ type Conn struct {
 	peerShut   bool   // the peer shut down its sending side (CloseWrite): reads end with EOF, the connection is still open
 	shut       bool   // this end shut down its sending side
 	reset      bool   // peer reset the connection
+	rdl, wdl   time.Time // deadlines, judged against the execution's logical clock (zero: none)
 	Capacity   int    // >0: the peer's Write parks when this end holds that many unread bytes
 	CloseErr   error  // non-nil: Close on this end closes the connection but reports this error (a TLS close notification that could not be sent)
 	ReadCalls  int
@@ -231,7 +233,12 @@ func (c *Conn) Read(p []byte) (int, error) {
 			e.acquire(&c.closeVC)
 			return 0, io.EOF
 		}
-		e.block(func() bool { return c.closed || len(c.rbuf) > 0 || c.reset || c.peerClosed || c.peerShut }, "Read:"+c.name)
+		if c.expired(c.rdl) {
+			return 0, c.opErr("read", os.ErrDeadlineExceeded)
+		}
+		e.block(func() bool {
+			return c.closed || len(c.rbuf) > 0 || c.reset || c.peerClosed || c.peerShut || c.expired(c.rdl)
+		}, "Read:"+c.name)
 	}
 }
 
@@ -296,9 +303,12 @@ func (c *Conn) Write(p []byte) (int, error) {
 		if c.peer.closed {
 			return 0, c.opErr("write", syscall.EPIPE)
 		}
+		if c.expired(c.wdl) {
+			return 0, c.opErr("write", os.ErrDeadlineExceeded)
+		}
 		if c.peer.Capacity > 0 && len(c.peer.rbuf) >= c.peer.Capacity {
 			e.block(func() bool {
-				return c.closed || c.reset || c.peer.closed || len(c.peer.rbuf) < c.peer.Capacity
+				return c.closed || c.reset || c.peer.closed || len(c.peer.rbuf) < c.peer.Capacity || c.expired(c.wdl)
 			}, "Write:"+c.name)
 			continue
 		}
@@ -364,9 +374,15 @@ func (c *Conn) Reset() {
 
 func (c *Conn) LocalAddr() net.Addr                { return memAddr{c.name} }
 func (c *Conn) RemoteAddr() net.Addr               { return memAddr{c.peer.name} }
-func (c *Conn) SetDeadline(t time.Time) error      { return nil }
-func (c *Conn) SetReadDeadline(t time.Time) error  { return nil }
-func (c *Conn) SetWriteDeadline(t time.Time) error { return nil }
+// Deadlines are kept and judged against the logical clock (vrt.Now / vrt.Advance): an
+// operation started at or after its deadline fails with a timeout error, as on a net.Conn.
+func (c *Conn) SetDeadline(t time.Time) error      { c.rdl, c.wdl = t, t; return nil }
+func (c *Conn) SetReadDeadline(t time.Time) error  { c.rdl = t; return nil }
+func (c *Conn) SetWriteDeadline(t time.Time) error { c.wdl = t; return nil }
+
+func (c *Conn) expired(dl time.Time) bool {
+	return !dl.IsZero() && c.e != nil && !c.e.clock.Before(dl)
+}
 
 // Name identifies the connection end ("c3" client / "s3" server).
 func (c *Conn) Name() string { return c.name }
